@@ -81,6 +81,25 @@ DESC = {
  "M-C17-4": ("eager `alloc::format!` when the adaptive prefilter turns inert", "needle > 32, >= 50 prefilter candidates less than 8 bytes apart within one search"),
  "M-C18-4": ("8-byte-word path for n >= 64 in `is_equal_raw` stops one word early", "operands >= 65 bytes, length not a multiple of 8, difference only in the `len % 8` bytes before the last word"),
  "M-C19-4": ("vector `Finder::new` reorders a descending pair whose offsets are >= one vector apart", "`with_pair` with index1 - index2 >= 16 (SSE2) / 32 (AVX2), then `pair()`"),
+ "M-C01-5": ("AVX2 `Two::find_raw` computes `end - start` before the `start >= end` guard", "raw form with reversed pointers: overflow panic / huge length"),
+ "M-C02-5": ("literal `32` instead of `2 * V::BYTES` in the unrolled loop of `One::rfind_raw`", "AVX2 reverse search, last match in vector c of a 128-byte block"),
+ "M-C03-5": ("`period_lower_bound * 2 >= needle.len()` decides the large shift in `Shift::forward`", "needle > 32 that is a square `ww` (period = len/2), near-miss directly before the occurrence"),
+ "M-C04-5": ("free function `memmem::rfind` returns `None` when `needle.len() >= haystack.len()`", "only the free function, haystack >= 64 bytes equal to the needle"),
+ "M-C05-5": ("3-byte tail of `is_equal_raw` done with one masked 4-byte load", "compared length = 3 mod 4, operand ending exactly at an unmapped page"),
+ "M-C06-5": ("top-level `Memchr3` iterator collapses repeated needles and drops the third for (x, x, y)", "needles x,x,y with y in the haystack; only the top-level iterator"),
+ "M-C07-5": ("32-bit accumulator in the unrolled loop of `count_raw`", ">= 2^32 matching bytes in one count (haystack > 4 GiB)"),
+ "M-C08-5": ("dropped `shift = nlen` after a byte-set skip in `rfind_small_imp` (as M-C04-1, iterator demo)", "reverse small-period needle, partial occurrence, foreign byte one period to its left"),
+ "M-C09-5": ("portable `find_prefilter` keeps a relative instead of an absolute `found` after the first `continue`", "portable prefilter in use (no vector backend / forced fallback), rarest byte occurring before the first candidate"),
+ "M-C10-5": ("per-candidate bounds guard hoisted out of the loop in `find_in_chunk` (as M-C05-1, ranker demo)", "needle 2..=32, pair excluding the last needle byte, haystack ending in a truncated occurrence that continues behind the slice"),
+ "M-C11-5": ("`eq1.and(chunk2).cmpeq(v2)` in the vector `find_prefilter_in_chunk`", "second pair byte is 0x00: every non-matching position becomes a candidate"),
+ "M-C12-5": ("`.skip(2).take(255)` in `Pair::with_ranker` (as M-C10-3)", "needle >= 257 bytes with a rarer byte at offset 256: constructors panic"),
+ "M-C13-5": ("`!haystack.contains(&needle[0])` quick reject in `SearcherRev::rfind`", "complete `rfind_iter` traversal: long head without `needle[0]`, tail with very many matches (work hidden in libcore)"),
+ "M-C14-5": ("`self.skipped + skipped` instead of `saturating_add` in `PrefilterState::update`", "one search accumulating >= 2^32 skipped bytes (haystack > 4 GiB)"),
+ "M-C15-5": ("Rabin-Karp needle hash computed lazily behind two atomics (claim flag doubles as ready flag)", "fresh finder shared by threads whose first Rabin-Karp searches overlap"),
+ "M-C16-5": ("`CowBytes::into_owned` serves 1-byte needles from a static table whose last entry is wrong", "needle exactly [0xFF], `into_owned()`, then `needle()`"),
+ "M-C17-5": ("`FindIter::next` clones the needle", "a `FindIter` converted with `into_owned()`: one allocation per `next()`"),
+ "M-C18-5": ("3-byte tail of `is_equal_raw` done with one masked 4-byte load (as M-C05-5)", "length = 3 mod 4, operand ending at an unmapped page (answers stay correct)"),
+ "M-C19-5": ("equal rare bytes: `index2` moved to the last needle byte / 255 in `Pair::with_ranker`", "needle >= 256 bytes with equal first two bytes and nothing rarer: offsets (0, 255)"),
 }
 rows = []
 for mid in sorted(os.listdir(os.path.join(ROOT, "seeded"))):
